@@ -30,7 +30,7 @@ func init() {
 
 func checkC02Read(c c02ReadCase) string {
 	b := renderVTT(c.Doc, c.Rend)
-	s, err := astisub.ReadFromWebVTT(bytes.NewReader(b))
+	s, err := astisub.ReadFromWebVTT(deliver(b))
 	if err != nil {
 		return fmt.Sprintf("reader rejected a well-formed document: %v\n--- document ---\n%q", err, clip(string(b), 700))
 	}
